@@ -177,7 +177,10 @@ func main() {
 			w.cross.close()
 		}
 	}
-	out, _ := json.MarshalIndent(map[string]interface{}{"results": results, "load_s": loadS, "wall_s": time.Since(t0).Seconds()}, "", " ")
+	out, merr := json.MarshalIndent(map[string]interface{}{"results": results, "load_s": loadS, "wall_s": time.Since(t0).Seconds()}, "", " ")
+	if merr != nil {
+		fatal(merr)
+	}
 	if *flagOut != "" {
 		os.WriteFile(*flagOut, out, 0o644)
 	} else {
